@@ -501,6 +501,13 @@ def run(tier, seed):
     eq_cases, eq_prelude = equality_cases(quick)
     eq_runner = core.Runner("c01eq", batch_size=40, prelude=eq_prelude)
     em = eq_runner.run(eq_cases)
+    # enums whose variants mix automatic and hand-written discriminants: every variant stays distinguishable
+    # (shared with C11, where the family lives)
+    from . import c11
+    dp_cases = c11.discriminant_pattern_cases(quick)
+    dp_runner = core.Runner("c01dp", batch_size=40, prelude=c11.BASE + "pb :: (b: bool) { if b { pr(1); } else { pr(0); } }\n")
+    em += dp_runner.run(dp_cases)
+    eq_cases = eq_cases + dp_cases
     outcomes = {c.expected for c in cases}
     if len(outcomes) < 200:
         core.machinery_failure("vacuous run")
